@@ -475,6 +475,7 @@ fn gen_msm(rng: &mut Rng) -> (u64, u64, u64) {
         1 | 2 => around(rng, 32),
         3 => rng.below(100),
         4 => around(rng, 256),
+        5 => rng.range(700, 1700),
         _ => rng.below(700),
     };
     let b = if rng.chance(4, 5) { u64::MAX } else { rng.below(a + 3) as u64 };
@@ -569,7 +570,13 @@ fn run_pairing(op: &Op) -> Vec<u8> {
     }
 }
 fn gen_pairing(rng: &mut Rng) -> (u64, u64, u64) {
-    (*rng.pick(&[0u64, 1, 2, 3, 4, 5, 7, 8, 9, 10, 12, 13]), if rng.chance(1, 3) { rng.below(8192) as u64 } else { 0 }, rng.below(12) as u64)
+    // empty input and inputs in which every pair contains an identity are the degenerate cases
+    let mask = match rng.below(6) {
+        0 => 8191,
+        1 | 2 => rng.below(8192) as u64,
+        _ => 0,
+    };
+    (*rng.pick(&[0u64, 0, 1, 2, 3, 4, 5, 7, 8, 9, 10, 12, 13]), mask, rng.below(12) as u64)
 }
 
 fn run_h2c(op: &Op) -> Vec<u8> {
